@@ -32,6 +32,11 @@ func orderUnmaskingInputs(e *env, round int) (book, log string) {
 	for i := 1; i <= 3; i++ {
 		fmt.Fprintf(&bk, "combo%d:\n  %s: 1\n  extra%d: %d\n  %s: 0.5\n", i, names[1], i, i+1, names[2])
 	}
+	// foods in separate top-level categories whose quantities cancel catastrophically (1e16, -1e16, 1, 1): a sum
+	// taken in map order instead of file order changes its first digit from run to run
+	for i := 1; i <= 4; i++ {
+		fmt.Fprintf(&bk, "cat%d/cancel:\n  fat: 1\n  calories: 1\n", i)
+	}
 	// a recipe without ingredients that other recipes refer to
 	bk.WriteString("placeholder:\n")
 	// a chain of references at the limit (13 references: fails at the default limit whatever the order) or below it
@@ -56,6 +61,9 @@ func orderUnmaskingInputs(e *env, round int) (book, log string) {
 		}
 		for i := 1; i <= 3; i++ {
 			fmt.Fprintf(&lg, "  combo%d: %d\n", i, i)
+		}
+		if d == 2 {
+			lg.WriteString("  cat1/cancel: 1e16\n  cat2/cancel: -1e16\n  cat3/cancel: 1\n  cat4/cancel: 1\n")
 		}
 		for i := 0; i < 6; i++ {
 			fmt.Fprintf(&lg, "  unknown/%s/%s: 2\n", names[10+i], names[11+i]) // unresolved foods, siblings in the balance tree
